@@ -200,13 +200,14 @@ func c12r2flags(c *Ctx, id string) {
 		c.see(op)
 		reset := map[string]bool{}
 		for _, in := range op.Blocks[0].Instrs {
-			if callOf(in) != nil {
-				break
-			}
-			if st, ok := in.(*ssa.Store); ok {
-				if fld := fieldOfAddr(st.Addr); fld != nil && w.Origin(st.Val) == "const(false)" {
+			if fld, _, val := flagWrite(in); fld != nil {
+				if w.Origin(val) == "const(false)" {
 					reset[fld.Name()] = true
 				}
+				continue
+			}
+			if callOf(in) != nil {
+				break
 			}
 		}
 		ok := reset["streamFinishedWithCloseCh"] && reset["streamFinishedWithEndEventCh"]
@@ -311,7 +312,7 @@ func c12r4(c *Ctx, id string) {
 	end := oi.handlers["End"]
 	c.need(end != nil, id, "observer.End")
 	recv := end.Params[0].Name()
-	h := &Harness{Fn: end, Bools: []string{recv + ".endClosed"}}
+	h := &Harness{Fn: end, Bools: []string{recv + "." + oi.fEndClosed}}
 	c.oae(id, fname(end), end.Pos(), h, func(st *State, out *Outcome) string {
 		var calls []Effect
 		for _, e := range out.Trace {
@@ -319,10 +320,10 @@ func c12r4(c *Ctx, id string) {
 				calls = append(calls, e)
 			}
 		}
-		if out.Final(recv+".endClosed") != nil {
+		if out.Final(recv+"."+oi.fEndClosed) != nil {
 			return "the end handler itself writes the end switch: the observer is reused when the vBucket is reopened, so later ends of that vBucket would be swallowed"
 		}
-		if st.B(recv + ".endClosed") {
+		if st.B(recv + "." + oi.fEndClosed) {
 			if len(calls) != 0 {
 				return "end forwarded although the end switch is closed"
 			}
@@ -356,10 +357,10 @@ func c12r4(c *Ctx, id string) {
 	}, "endListener({Event: event, Err: err}) exactly once ⇔ ¬endClosed")
 	ce := w.Method("couchbase", oi.typ.Obj().Name(), "CloseEnd")
 	c.need(ce != nil, id, "observer.CloseEnd")
-	f := w.Field("couchbase", oi.typ.Obj().Name(), "endClosed")
+	f := w.Field("couchbase", oi.typ.Obj().Name(), oi.fEndClosed)
 	ok := false
 	allInstrs(ce, func(in ssa.Instruction) {
-		if st, isSt := in.(*ssa.Store); isSt && fieldOfAddr(st.Addr) == f && w.Origin(st.Val) == "const(true)" {
+		if fl, _, val := flagWrite(in); fl != nil && fl == f && w.Origin(val) == "const(true)" {
 			ok = true
 		}
 	})
